@@ -149,7 +149,12 @@ CHECKS["C13"] = dict(
          "{integer, boolean, two enums, opaque}: accepted iff the documented signature admits it, documented result type, "
          "error located in the expression, no exception; plus the positional rules (field start/size, array length, "
          "existence condition, parameter definitions, passed parameters).  The domain is finite, so the paths enumerate it "
-         "completely; nesting follows by induction because the checker sees a child only through its annotated type.",
+         "completely; nesting follows by induction because the checker sees a child only through its annotated type -- and the "
+         "one place where that fails (an operand a failed check left without a type) is exercised directly: eight ill-typed "
+         "subexpressions under every operator and typed position.  Through the whole front end: operators over constants reached "
+         "directly, through static and through local references (before/after the definition, through two aliases), parameter "
+         "definitions (declared type x use), $max with up to 13 arguments; every rejection must name the module's file, carry a "
+         "position inside it and render with error.format_errors.",
     note="[requires] clauses and enum values are typed positions of the module-level harness; the documented-vs-implemented "
          "mismatch on enum ordering comparisons and enum-typed enum values are recorded known findings.",
     design="DESIGN.md section 3 C13",
@@ -174,7 +179,10 @@ CHECKS["C15"] = dict(
          "dependency and keeps the source order whenever that is valid, for every acyclic graph on N nodes; the whole front "
          "end agrees on every 3-node graph of virtual fields (cycle error iff cyclic, emitted order valid).",
     note="N <= 3 (cycles) / 4 (ordering) quick, 4 / 5 thorough; Tarjan's paths each fix the whole matrix (case analysis), the "
-         "ordering's paths cover sets of graphs; import cycles use the same _find_cycles and are not separately rendered.",
+         "ordering's paths cover sets of graphs.  Front end: every 3-node graph in nine renderings (virtual fields; physical fields "
+         "depending through locations, conditions, type arguments; nodes spread over types and an enum; local and static references "
+         "mixed in one structure -- static edges count for cycles, not for the field order) and every import graph on three modules "
+         "(self-imports included).",
     design="DESIGN.md section 3 C15",
 )
 
